@@ -70,13 +70,23 @@ def cases(ctx):
             table = None
         yield {"kind": "text", "text": _edit(rng, text), "table": table}
     for special in ("A = C(P = " + "x" * 10000 + ")", "A = C(P = \"" + "y" * 10000 + "\")", "A = C(P = " + "[" * 6 + "1" + "]" * 6 + ")", "A = C(P = " + "[" * 40 + "1" + "]" * 40 + ")",
-                    "", "   ", "\n\n", "#only a comment", "A", "A =", "A = C", "A = C(", "= C()", "A = C()()", "A = 1()", "1 = C()", "A = C(P = 1 2 3)", "A = C(P = [a: b: c])", "A = C(P = [a, b: c])", "A = C(P = [1, [2, x: y]])", "A = C(P = [a, b: c, d])", "A = Sum(InFieldNames = [A, B: C])",
+                    "", "   ", "\n\n", "#only a comment", "A", "A =", "A = C", "A = C(", "= C()", "A = C()()", "A = 1()", "1 = C()", "A = C(P = 1 2 3)", "A = EEMSRead(InFileName = \"da\\0ta.csv\", InFieldName = X)", "A = EEMSRead(InFileName = da\x00ta.csv, InFieldName = X)", "A = EEMSRead(InFileName = \"\", InFieldName = X)",
+                    "A = EEMSRead(InFileName = \"" + "d/" * 3000 + "x.csv\", InFieldName = X)", "A = PrintVars(InFieldNames = [], OutFileName = \"o\\0ut.txt\")",
+                    "A = C(P = [a: b: c])", "A = C(P = [a, b: c])", "A = C(P = [1, [2, x: y]])", "A = C(P = [a, b: c, d])", "A = Sum(InFieldNames = [A, B: C])",
                     "A = C(P = [a: [1]])", "A = C(P = [[a: b]])", "A = C(P = \"\\N{BULLET}\")", "A = C(P = '\\x4')", "A = C(P = \"\\u12\")", "A = C(P = \"\\777\")", "\ufeffA = C(P = 1)",
                     "A = C(P = 1)\x00", "A = C(P = \x00)", "A = EEMSRead(InFileName = 5, InFieldName = 6)", "A = EEMSRead(InFileName = [a], InFieldName = [b: c])",
                     "A = Sum(InFieldNames = A)", "A = Sum(InFieldNames = [A])", "A = Copy(InFieldName = A, Metadata = 5)", "A = Copy(InFieldName = B, Metadata = [1, 2])",
                     "READ(InFileName = x)", "READ()", "CVTTOFUZZY(InFieldName = [a])", "SUM(NewFieldName = [a, b], InFieldNames = [a])"):
         if ctx.shard == 0:
             yield {"kind": "text", "text": special, "table": None}
+    # very deep models (listed top-down and bottom-up) and a very long ring: whatever happens must be an MPilot error
+    if ctx.shard == 0:
+        for n in (1100, 3000):
+            chain = ["N%d = Copy(InFieldName = N%d)" % (i, i + 1) for i in range(n)] + ['N%d = EEMSRead(InFileName = "in.csv", InFieldName = "X0")' % n]
+            yield {"kind": "text", "text": "\n".join(chain), "table": {"cols": {"X0": {"data": [1, 2], "integer": True}}, "nrows": 2, "missing": None, "file": "in.csv"}, "nocli": True}
+            yield {"kind": "text", "text": "\n".join(reversed(chain)), "table": {"cols": {"X0": {"data": [1, 2], "integer": True}}, "nrows": 2, "missing": None, "file": "in.csv"}, "nocli": True}
+            ring = ["N%d = Copy(InFieldName = N%d)" % (i, (i + 1) % n) for i in range(n)]
+            yield {"kind": "text", "text": "\n".join(ring), "table": None, "nocli": True}
     # (c) CSV faults
     for i in range(ctx.n(500, 30000)):
         m = models.gen_model(rng, n_ops=rng.randint(1, 4), sinks=rng.random() < 0.4)
@@ -259,7 +269,7 @@ def run_text(ctx, case):
         return
     b = _Boundary(text, d)
     ctx.feature(("text", outcome, type(b.exc).__name__ if b.exc else "ok", b.stage))
-    if _classify(ctx, b, "text", detail) and len(text) < 3000 and "\x00" not in text:
+    if _classify(ctx, b, "text", detail) and len(text) < 3000 and "\x00" not in text and not case.get("nocli"):
         if ctx.rng("cli", len(text)).random() < 0.25:
             d2 = ctx.scratch()
             if case.get("table"):
